@@ -8,6 +8,7 @@ import (
 	"fmt"
 	"math/big"
 	"math/rand"
+	"sort"
 	"strconv"
 	"strings"
 
@@ -482,7 +483,13 @@ func (o *C08) usableSets(w *World) {
 		if e == nil {
 			continue
 		}
-		for n, s := range t.Cur.SSets[ch] {
+		var nonces []uint64
+		for n := range t.Cur.SSets[ch] {
+			nonces = append(nonces, n)
+		}
+		sort.Slice(nonces, func(i, j int) bool { return nonces[i] < nonces[j] })
+		for _, n := range nonces {
+			s := t.Cur.SSets[ch][n]
 			if _, old := t.Prev.SSets[ch][n]; old || len(s.Signers) == 0 {
 				continue
 			}
